@@ -314,6 +314,7 @@ let agent_suite () =
            | None -> List.iter (fun k -> emit (Printf.sprintf "S %d 0 C%02d unparsable" i k)) [3]
            | Some (o, key) ->
              if not (mon_C13_ltkey cc st.ma_lt mo o) then emit (Printf.sprintf "S %d 0 C13 lt-integrity-key" i);
+             if not (mon_C13_ltcred cc st.ma_lt mo o) then emit (Printf.sprintf "S %d 0 C13 lt-credential-attributes" i);
              let (s', vs) = monitor_step c cc st mo o in
              ms := Some s'; prev := Some key;
              if List.mem "pwleak=1" (split_sp (if n > 2 then String.sub line 2 (n - 2) else "")) then
